@@ -53,6 +53,14 @@ def run(m, tier):
         for f in rr_.findings:
             f.rule = rid
         results.append(rr_)
+    from sa.report import retag
+    from sa import tables as _tables
+    from rules import common_block as _cb, reader_interp
+    results.append(retag(C02.r5_labels_names(m, _cb.get_ctx(m), _tables.engine_instances(m, "BlockBase")), "C01.R30",
+                         "every class that can be built from a reader line prints its statement label and construct name: the "
+                         "regenerated text re-parses to items with the same label and name (shared with C02.R5)"))
+    results.append(reader_rules.rule_inline_table(m, "C01.R31"))
+    results.append(reader_interp.free_rule(m, "C01.R32", tier))
     expl = ("Decides structural necessary conditions of the round trip: every rule class that can build a node resolves a printer; the "
             "tuple arities each match can return (abstract interpretation of all return sites, following delegation to the generic "
             "engines with the call site's class arguments bound) are accepted by the resolved init and agree with the constant indices, "
